@@ -53,7 +53,7 @@ CLAIMS = {
         note="trusted: lfp_terms oracle"),
     "C12": dict(category="exploration", design="4/C12",
         technique="bounded-exhaustive enumeration of ordered pairs of specifications; oracle: plain enumeration of both root classes, object by object",
-        text="All ordered pairs of the distinct specifications of a bounded family (W under three rule databases with/without a statistic, all pattern sets of <= 2 words of length 3, G grammars; every 7th pair after a JSON round trip): a returned bijection maps the objects of the first root one-to-one onto those of the second for all sizes <= N with a two-sided inverse; check is symmetric and reflexive.",
+        text="All ordered pairs of the distinct specifications of a bounded family (W under three rule databases with/without a statistic, all pattern sets of <= 2 words of length 3, G grammars; every 7th pair after a JSON round trip): (plus the regular languages with <= 2 DFA states decomposed from the left or from the right) a returned bijection maps the objects of the first root one-to-one onto those of the second for all sizes <= N with a two-sided inverse; check is symmetric and reflexive.",
         note="each ordered pair judged independently"),
     "C13": dict(category="exploration", design="4/C13",
         technique="bounded-exhaustive enumeration of ordered pairs of searchers x both finder variants; oracles of C01/C02/C12 on the returned pair",
